@@ -16,7 +16,7 @@
 (* each observed (argument, result) pair must agree with the operators.    *)
 (***************************************************************************)
 EXTENDS Integers, Sequences, FiniteSets, TLC, PvData
-\* PvData (generated) defines Obs: sequence of
+\* PvData (generated) defines DayRange (a set of day numbers, {} except in calendar mode) and Obs: sequence of
 \*   [k |-> "n2p", x |-> instant, p |-> fields]     unix_nano_to_pv_string(x) returned the string with fields p
 \*   [k |-> "p2n", p |-> fields, x |-> instant]     convert_timestamp_to_unix_nano(string of p) returned x
 \*   [k |-> "ord", x |-> instant, y |-> instant, p |-> fields, q |-> fields]   x < y were converted to p and q
@@ -85,7 +85,10 @@ GridNs == {0, 1, 499, 500, 501, 999}
 Grid == {[d |-> d, s |-> s, us |-> u, ns |-> 0] : d \in GridDays, s \in GridSecs, u \in GridUs}
 
 SelfMode == Obs = <<>>
-Init == IF SelfMode THEN i = 0 /\ inst \in Grid
+\* calendar mode (PvData.DayRange # {}): one state per day number of the range, for the invariants that speak about one
+\* instant only (RoundTripNs, RoundTripPv, NextDay, CarryOk): the whole calendar 1970..2100 instead of the grid days
+AllDays == {[d |-> d, s |-> s, us |-> u, ns |-> 0] : d \in DayRange, s \in {0, 86399}, u \in {0, 999999}}
+Init == IF SelfMode THEN i = 0 /\ inst \in (IF DayRange = {} THEN Grid ELSE AllDays)
                     ELSE i \in 1..Len(Obs) /\ inst = [d |-> 0, s |-> 0, us |-> 0, ns |-> 0]
 Next == FALSE /\ UNCHANGED vars
 Spec == Init /\ [][Next]_vars
